@@ -71,6 +71,7 @@ def symbol_needed_twice(g, items) -> bool:
     for it in items:
         d |= ref_ctf.ancestors(g, _pair(it))
     outcome = {it["v"] for it in items}
+    outcome_versions = {ref_ctf.minimize(g, _pair(it)) for it in items}
     versions, forms = {}, {}
     for v in d:
         versions.setdefault(v[0], set()).add(v)
@@ -78,8 +79,9 @@ def symbol_needed_twice(g, items) -> bool:
     for n, vs in versions.items():
         # two versions of a variable that has to be summed out (one summation symbol for two quantities), or two
         # versions that ctf-factor form writes identically (collapsed into one set element).  Two versions of an
-        # OUTCOME variable with different ctf-factor forms are written correctly and are not part of this finding.
-        if len(vs) > 1 and (n not in outcome or len(forms[n]) < len(vs)):
+        # versions that are BOTH (minimised) event items, with different ctf-factor forms, are written correctly and
+        # are not part of this finding.
+        if len(vs) > 1 and (not vs <= outcome_versions or len(forms[n]) < len(vs)):
             return True
     summed = {v[0] for v in d} - outcome
     fixed_subs = {n for it in items for n, _ in it["do"]}
